@@ -224,6 +224,10 @@ def check_pipelines(rep, prog, fm, cfg):
                                                 PT + "generatePH", PT + "generateUH"}})
         st = pelx.new_stream(I)
         c = I.new("pel.peltool.config.Config")
+        # every on/off option is left open: no option may let a log through that considerPEL - all the count mode asks - rejects
+        for k_, v_ in list(I.obj(c).attrs.items()):
+            if isinstance(v_, Const) and isinstance(v_.v, bool):
+                I.obj(c).attrs[k_] = Sym("cfg." + k_, "exc")
         args = [st, c] + ([Const(False)] if fn == "parsePEL" else [])
         r = I.call(PT + fn, args)
         seq = [e for e in I.events if e.kind == "opaquecall" and e.data[0] in (PT + "generatePH", PT + "generateUH", PT + "considerPEL")]
@@ -436,11 +440,18 @@ def run(rep, prog, thorough):
     check_json_order(rep, prog)
     from .c09 import check_all_separator
     check_all_separator(rep, fm, "C08.R2.same-filter")
+    # ... and the same selection for the first and the last file: no option is a one-shot iterator (rule shared with C19)
+    from .c19 import check_options_reusable
+    check_options_reusable(rep, fm, "C08.R2.same-filter")
     # count / list look at the two headers only, display-all decodes every section: a well-formed section that the full
     # decode cannot digest makes the three modes disagree (rule shared with C01)
     check_decode_independent_of_display(rep, prog, "C08.R2.same-filter")
     from .c01 import check_full_decode_accepts
     check_full_decode_accepts(rep, prog, "C08.R5.full-decode-accepts")
+    # ... and reads of a callout exactly what its flags announce: a mis-sized read makes --list / --all-pels fail on a log that
+    # --show-pel-count (headers only) still counts (rule shared with C01)
+    from .c01 import check_callout_accounting
+    check_callout_accounting(rep, prog, pfx="C08.R5.full-decode-accepts")
     # the modes decode the PELs of a directory in different orders (-r) and to different depths: what is shown for one PEL
     # must not depend on what was decoded before it (rule shared with C19)
     from .c05 import decoder_runs
